@@ -229,8 +229,8 @@ func (s *JavaIdentifierListener) EnterExpression(ctx *parser.ExpressionContext) 
 	if reflect.TypeOf(ctx.GetParent()).String() == "*parser.StatementContext" {
 		statementCtx := ctx.GetParent().(*parser.StatementContext)
 		firstChild := statementCtx.GetChild(0).(antlr.ParseTree).GetText()
-		if strings.ToLower(firstChild) == "return" {
-			currentMethod.IsReturnNull = strings.Contains(ctx.GetText(), "null")
+		if strings.ToLower(firstChild) == "return" && strings.Contains(ctx.GetText(), "null") {
+			currentMethod.IsReturnNull = true
 		}
 	}
 }
